@@ -180,6 +180,12 @@ def judge(step, rep, pre, post, names, layers, src, sh, case):
             if d["metadata"] is None or tomlw.untagged(d["metadata"]).get(key) != (md0 or {}).get(key):
                 sh.violation("callback-data:metadata", "%s: %s() saw metadata %r, disk has %r" % (what, c["cb"], d["metadata"], md0), case)
                 return None
+            # ... and the [types] table as the file has it (a restored layer has none: the lifecycle strips it) - not what the layer is about to declare
+            t0 = layersim.parse_toml(v0["toml"])[0] if v0["toml"] is not None else None
+            t0 = None if t0 is None else {k: bool(t0.get(k, False)) for k in ("launch", "build", "cache")}
+            if d.get("types") != t0:
+                sh.violation("callback-data:types", "%s: %s() saw types %r, the file had %r" % (what, c["cb"], d.get("types"), t0), case)
+                return None
     if "err" in rep:
         if action != "error":
             sh.violation("unexpected-error", "%s failed: %s (expected action %s)" % (what, rep["detail"][:300], action), case)
